@@ -3,7 +3,7 @@ outside the reach of the contracts (reported in every evidence file)."""
 
 PROPS = {
     "C04": dict(
-        units=["G1", "G2", "G3"],
+        units=["G1", "G2", "G3", "G4"],
         level="proof",
         level_text="Accept <=> inside is a postcondition of the real validation functions, discharged for every u32/f64/usize "
                    "argument (Verus on the extracted check_crop_box; loop-free Kani harnesses over full-domain symbolic inputs on "
@@ -12,7 +12,7 @@ PROPS = {
         not_decided=[],
     ),
     "C06": dict(
-        units=["A1", "A2", "A3"],
+        units=["A1", "A2", "A3", "A4"],
         level="proof",
         level_text="Exact rounding of multiply and faithful, saturating divide are postconditions of the real arithmetic functions, "
                    "discharged by Verus for every 8-bit and every 16-bit (colour, alpha) pair (bit-vector and integer lemmas), the "
@@ -57,5 +57,23 @@ PROPS = {
                    "containers by bounded Kani harnesses and reported separately.",
         level_note="Trusted: Verus/Z3, Kani/CBMC, the weaver; slice substitutions are listed in the evidence (callee -> contract stand-in).",
         not_decided=["pixel identity by address for views larger than the bounded harnesses (concrete sizes <= 5 px per side)"],
+    ),
+    "C15": dict(
+        units=["G6"],
+        level="proof",
+        level_text="Positivity, finiteness, full extent in one dimension and the centering identity are postconditions discharged for all "
+                   "sizes 1..65535 and all non-NaN centerings (loop-free Kani). The in-bounds and aspect clauses are discharged only for "
+                   "sizes <= 255 (bounded, labelled) in the quick tier; the full-range versions run in the thorough tier.",
+        level_note="Trusted: Kani/CBMC IEEE-754 f64 model.",
+        not_decided=["in-bounds and aspect clauses for sizes 256..65535 unless the thorough-tier harnesses finish"],
+    ),
+    "C12": dict(
+        units=["P"],
+        level="model_checking",
+        level_text="Bounded: the copy path, copy_image's contract and the pass-planning obligations are checked by Kani on the real "
+                   "resize_typed with small concrete sizes, symbolic contents, symbolic integer crop origin and a symbolic algorithm "
+                   "(all variants, filters, multiplicities). The deciding step is bounded in image size, hence not claimed as proof.",
+        level_note="Trusted: Kani/CBMC; Form-M contract stand-ins for the coefficient tables (justified by units K6/K4).",
+        not_decided=["sizes beyond 3x3", "SIMD back-ends"],
     ),
 }
